@@ -189,7 +189,7 @@ table_guard(void)
     }
     /* a definition: a family name directly followed by '(' that starts its line,
      * or sits on a line that starts with `static` */
-    int found = 0;
+    int found = 0, unknown = 0;
     size_t line = 0;
     for (size_t i = 0; i < n; ++i) {
         if (i == 0 || text[i - 1] == '\n')
@@ -220,14 +220,19 @@ table_guard(void)
             i = e;
             continue;
         }
-        if (!in_table(name))
-            mc_broken("%s defines %s, which has no row in the C15 function table", path, name);
+        if (!in_table(name)) {
+            /* a function the table does not know: it cannot be driven, but that
+             * must not stop the functions that are known from being checked */
+            if (unknown++ == 0)
+                mc_cap("binary-format.h defines %s (and possibly more) without a row in the C15 function table: not driven", name);
+            i = e;
+            continue;
+        }
         ++found;
         i = e;
     }
     if (found != table)
-        mc_broken("%s defines %d bf_ref_/bf_set_/bf_swap/bf_inrange_ functions, the C15 table drives %d",
-                  path, found, table);
+        mc_cap("binary-format.h defines %d of the %d functions of the C15 table", found, table);
 }
 
 /* ======================================================================== *
